@@ -1088,6 +1088,42 @@ func (c *Ctx) r069(rule, rel string) {
 		}
 		c.R.Check(ok, rule, fmt.Sprintf("%s.Minifier.Minify/text written#%d after the ]]> escaper", rel, n), c.pos(a), "the data is the escaper's result", "the data of a text token is written without passing the function that keeps the `>` of `]]>` escaped: `<a>]]&gt;</a>` → `<a>]]></a>`, which is not well-formed")
 	}
+	// (a') nothing else writes character data: inside the text case the output writer is handed to no other function (an
+	// embedded minifier that writes the style sheet of an SVG style element straight into the output goes around the escaper)
+	var wobj types.Object
+	for _, f := range fd.Type.Params.List {
+		for _, nm := range f.Names {
+			if types.TypeString(info.TypeOf(f.Type), nil) == "io.Writer" {
+				wobj = info.Defs[nm]
+			}
+		}
+	}
+	if wobj != nil {
+		k := 0
+		for _, y := range g.Nodes {
+			a := y.Ast()
+			if a == nil || (y.Kind != flow.KStmt && y.Kind != flow.KCond) {
+				continue
+			}
+			inText := false
+			for _, f := range g.DomFacts(y) {
+				if f.Test.Kind == flow.KCase && f.Value && nospace(str(f.Test.Expr)) == "xml.TextToken" {
+					inText = true
+				}
+			}
+			if !inText {
+				continue
+			}
+			flowInspectCalls(a, func(call *ast.CallExpr) {
+				for _, arg := range call.Args {
+					if id, ok := ast.Unparen(arg).(*ast.Ident); ok && info.Uses[id] == wobj {
+						k++
+						c.R.Bad(rule, fmt.Sprintf("%s.Minifier.Minify/text case hands the output to %s#%d", rel, calleeShort(info, call), k), c.pos(call), "the output writer is passed to "+str(call.Fun)+" inside the text case: what that function writes is character data that does not pass the function that keeps the `>` of `]]>` escaped — `<svg><style>b{content:\"]]&gt;\"}</style></svg>` → `b{content:\"]]>\"}`, which is not well-formed")
+					}
+				}
+			})
+		}
+	}
 	// (b) CDATA converted to text
 	m := 0
 	for _, y := range g.Nodes {
